@@ -1,5 +1,5 @@
 (* Stages B, C and D of C01_back: programs over top-level variables.  A program is a list of top-level statements -
-   declarations `x := e`, assignments `x = e`, expression statements, conditionals `if c { ... } else { ... }` and
+   declarations `x := e`, assignments `x = e`, expression statements, conditionals `if c { ... } else { ... }` / `if c { ... }` and
    condition loops `for c { ... }` whose blocks are again lists of assignments, expression statements, conditionals
    and loops, nested to any depth - over the scalar expressions of ScalarFrag.v (which may mention the variables
    declared so far).  The k-th declaration declares variable k; [names] gives the variables their (distinct,
@@ -16,6 +16,7 @@ Inductive stmt :=
 | SSet (i : nat) (e : sexp)              (* x_i = e *)
 | SExpr (e : sexp)
 | SIf (c : sexp) (t e : list stmt)       (* if c { t } else { e } *)
+| SIf1 (c : sexp) (t : list stmt)        (* if c { t } *)
 | SWhile (c : sexp) (b : list stmt).     (* for c { b } *)
 
 (* k = number of variables declared so far *)
@@ -31,6 +32,7 @@ Fixpoint embed_stmt (names : list (list N)) (k : nat) (s : stmt) {struct s} : no
   | SSet i e => NAssign (nth i names []) [61%N] (embed names e)
   | SExpr e => embed names e
   | SIf c t e => NIf (embed names c) (embed_list (embed_stmt names) k t) (Some (embed_list (embed_stmt names) k e))
+  | SIf1 c t => NIf (embed names c) (embed_list (embed_stmt names) k t) None
   | SWhile c b => NFor (Some (embed names c)) None None (embed_list (embed_stmt names) k b)
   end.
 Definition embed_stmts (names : list (list N)) : nat -> list stmt -> list node := embed_list (embed_stmt names).
@@ -46,6 +48,7 @@ Fixpoint wf_stmt (top : bool) (k : nat) (s : stmt) {struct s} : bool :=
   | SSet i e => Nat.ltb i k && wf k e
   | SExpr e => wf k e
   | SIf c t e => wf k c && wf_list (wf_stmt false) k t && wf_list (wf_stmt false) k e
+  | SIf1 c t => wf k c && wf_list (wf_stmt false) k t
   | SWhile c b => wf k c && wf_list (wf_stmt false) k b
   end.
 Definition wf_stmts (top : bool) : nat -> list stmt -> bool := wf_list (wf_stmt top).
@@ -59,13 +62,13 @@ Fixpoint sheight (s : stmt) : nat :=
   match s with
   | SDecl e | SSet _ e | SExpr e => height e
   | SIf c t e => S (Nat.max (height c) (Nat.max (max_list sheight 0 t) (max_list sheight 0 e)))
-  | SWhile c b => S (Nat.max (height c) (max_list sheight 0 b))
+  | SIf1 c b | SWhile c b => S (Nat.max (height c) (max_list sheight 0 b))
   end.
 Fixpoint sneed (s : stmt) : nat :=
   match s with
   | SDecl e | SSet _ e | SExpr e => need e
   | SIf c t e => Nat.max (need c) (Nat.max (max_list sneed 1 t) (max_list sneed 1 e))
-  | SWhile c b => Nat.max (need c) (max_list sneed 1 b)
+  | SIf1 c b | SWhile c b => Nat.max (need c) (max_list sneed 1 b)
   end.
 Definition max_height (l : list stmt) : nat := max_list sheight 0 l.
 Definition max_need (l : list stmt) : nat := max_list sneed 1 l.
@@ -96,6 +99,10 @@ Fixpoint run_stmt (fuel : nat) (rho : list sval) (s : stmt) {struct fuel} : resu
                    | inl vc => run_list (run_stmt f) rho (if struthy vc then t else e) VNil
                    | inr x => Some (inr x)
                    end
+    | SIf1 c t => match sev rho c with
+                  | inl vc => if struthy vc then run_list (run_stmt f) rho t VNil else Some (inl (rho, VNil))
+                  | inr x => Some (inr x)
+                  end
     | SWhile c b => match sev rho c with
                     | inl vc =>
                         if struthy vc then
@@ -111,7 +118,7 @@ Fixpoint run_stmt (fuel : nat) (rho : list sval) (s : stmt) {struct fuel} : resu
 Definition run_stmts (fuel : nat) : list sval -> list stmt -> sval -> result := run_list (run_stmt fuel).
 
 (* ---------------------------------------------------------------- emitted code *)
-Definition is_expr_stmt (s : stmt) : bool := match s with SExpr _ | SIf _ _ _ => true | _ => false end.
+Definition is_expr_stmt (s : stmt) : bool := match s with SExpr _ | SIf _ _ _ | SIf1 _ _ => true | _ => false end.
 (* a non-empty statement list as compileStatements lays it out: an expression statement is followed by PopTop unless
    it is the last one; a last statement that is not an expression is followed by Nil *)
 Definition layout (sc : nat -> nat -> stmt -> list N * list konst) : nat -> nat -> list stmt -> list N * list konst :=
@@ -141,6 +148,10 @@ Fixpoint stmt_code (k base : nat) (s : stmt) {struct s} : list N * list konst :=
       let '(ct, kt) := block_layout stmt_code k (base + length kc) t in
       let '(ce, ke) := block_layout stmt_code k (base + length kc + length kt) e in
       (cc ++ [opPopJumpForwardIfFalse; (nlenN ct + 4)%N] ++ ct ++ [opJumpForward; (nlenN ce + 2)%N] ++ ce, kc ++ kt ++ ke)
+  | SIf1 c t =>
+      let '(cc, kc) := cexp base c in
+      let '(ct, kt) := block_layout stmt_code k (base + length kc) t in
+      (cc ++ [opPopJumpForwardIfFalse; (nlenN ct + 4)%N] ++ ct ++ [opJumpForward; 3%N] ++ [opNil], kc ++ kt)
   | SWhile c b =>
       let '(cc, kc) := cexp base c in
       let '(cb, kb) := block_layout stmt_code k (base + length kc) b in
